@@ -1,18 +1,54 @@
 def nontrivial(c):
     ops = [l.split(" ")[1] for l in c["lines"] if l.startswith("op ")]
+    obs = [l for l in c["lines"] if l.startswith("obs ")]
     return ("rk" in ops and "rd" in ops and ("drain" in ops or "maint" in ops)
-            and ("cs" in ops or "ct" in ops))
+            and any(o.startswith("obs kept") for o in obs) and any(o == "obs dropped" for o in obs))
 
 SPEC = dict(
     property="C31",
     component="sentcache",
     props_module="Refinery.Props.C31",
     gen_module="Refinery.Gen.Sentcache",
-    quick=dict(cases=1200, len=120, shards=4),
+    quick=dict(cases=800, len=120, shards=4),
     thorough=dict(cases=32000, len=150, shards=16),
     nontrivial=nontrivial,
-    rule="x",
-    trusted_base=[],
-    manifest=dict(text="x", note="x", technique="x"),
-    assumptions=[],
+    rule="cases = random histories of kept records (id, rate, reason, counters), drop records, CheckSpan/CheckTrace, "
+         "explicit add-queue drains, monitor ticks (Maintain + recent-set length), resizes (kept, dropped, worker count) and "
+         "fake-clock advances (mostly landing on / 1 ns around a recent-drop expiry) on a real cuckooSentCache with kept "
+         "capacity 1-8 (thorough: up to 64), filters of 4-64 slots, an id universe a few ids larger than the kept capacity, "
+         "8 % of cases flooding the 1000-deep add queue; every case ends with a drain and a lookup of every id. "
+         "non-trivial = has a kept record, a drop record, a drain or maintenance, and got both a 'kept' and a 'dropped' answer; "
+         "distinct by transcript hash",
+    trusted_base=[
+        "hashicorp/golang-lru v2 (modelled as the textbook LRU; agreement checked on every generated case)",
+        "panmari/cuckoofilter (modelled as an exact set + insert count; its false positives, failed inserts and kicked-out "
+        "fingerprints enter the model as adversarial inputs computed from the real filters' Lookup/Count after each drain; "
+        "assumed: an insert cannot fail while the filter holds fewer than 4 fingerprints, one failed insert loses at most one id)",
+        "dgryski/go-wyhash (reason hash fed to the model per record)",
+        "clockwork.FakeClock on the recent-drop set; generics.SetWithTTL as modelled for C32",
+        "harness accessors zz_verif_sentcache.go (parks the 100 us add-queue goroutine; SizeCheckInterval = 1000 h)",
+    ],
+    manifest=dict(
+        text="Lean theorems over all histories of records, lookups, drains, maintenance cycles (with adversarial filter "
+             "behaviour), resizes and clock advances: the kept list refines the recency specification (first `cap` distinct ids "
+             "of the touch sequence, most recent first; prefix of it under resizes), such a trace is answered kept with the "
+             "recorded rate and interned reason, a resize keeps the newest; an id in the dropped filter or the recent-drop set is "
+             "answered dropped whatever the kept list says, stays so until a rotation, rotation needs load > 99 %, the recent-drop "
+             "set covers CheckSpan for 3 s after the record. Refuted and recorded: CheckTrace does not consult the recent-drop set "
+             "(rd x; ct x answers not-found/kept until the add queue is drained). Model tied to collect/cache/*.go by replaying "
+             "generated histories on the real cuckooSentCache and comparing every answer and every filter/queue statistic, plus a "
+             "monitor of the property on the implementation's own answers.",
+        note="Trusted: Lean kernel; the differential check (sampled); the third-party LRU, cuckoo filter and wyhash as described; "
+             "each cache method runs to completion (no interleaving inside Record/CheckSpan/drain/Maintain/Resize: C35 is about that).",
+        technique="Lean 4 proof (refinement + invariants by induction over histories, refuted full statement with witness) "
+                  "+ model/implementation correspondence check",
+    ),
+    assumptions=[
+        "operations of one cache do not interleave (the worker goroutine owns the cache; drain and Maintain are the background steps, "
+        "made explicit operations here)",
+        "sample rates below 2^32 (the uint32 truncation of the kept record is property C04's finding); fewer than 2^32 distinct reasons",
+        "no two kept reasons collide under the 64-bit wyhash (hypothesis HashInj of kept_answered / reason_roundtrip)",
+        "DroppedSize >= 1 (DroppedSize = 0 with WorkerCount = 0 wraps to 2^64-1 in GetDroppedSizePerWorker; not generated)",
+        "'filled to capacity' is read as: the current filter's load exceeded 99 % of its slots at some maintenance cycle after the record",
+    ],
 )
